@@ -287,11 +287,23 @@ func checkGroupSeparator(c *core.Ctx, rule string) {
 	sg := c.Func("fix/encoding", "splitGroup")
 	if c.Anchor("group splitting", um != nil && sg != nil, "state.unmarshal / splitGroup", posOf(um)) {
 		var call *ssa.Call
-		an.AllInstrs(um, func(in ssa.Instruction) {
-			if cl, ok := in.(*ssa.Call); ok && an.StaticCallee(&cl.Call) == sg {
-				call = cl
+		var site *ssa.Call // where a helper cut out of the group case (holding the call) is called
+		for _, fn := range pkgFuncs(um.Pkg) {
+			if fn != um {
+				if owner, chain := an.LogicalOwner(fn); owner != um || len(chain) != 1 {
+					continue
+				}
 			}
-		})
+			an.AllInstrs(fn, func(in ssa.Instruction) {
+				if cl, ok := in.(*ssa.Call); ok && an.StaticCallee(&cl.Call) == sg {
+					call = cl
+					if fn != um {
+						_, chain := an.LogicalOwner(fn)
+						site = chain[0]
+					}
+				}
+			})
+		}
 		ob := c.Ob(rule, "state.unmarshal", "group separator = SOH·firstTag·'=' taken at the delimiter after the count field", posOf(um))
 		if call == nil {
 			ob.Fail("splitGroup is not called")
@@ -315,6 +327,19 @@ func checkGroupSeparator(c *core.Ctx, rule string) {
 							ev := &an.SeqEval{}
 							if ev.Eval(idx.Call.Args[1]).Norm().String() == "'␁'" && an.Render(idx.Call.Args[0]) == base+"["+an.Render(pair[0])+":]" {
 								okLo = true
+							}
+						}
+					}
+				}
+				// in a helper that is handed the data from the count field on (data[a:] at its call site): line = p[Index(p, SOH):]
+				if idx, ok := line.Low.(*ssa.Call); ok && site != nil && an.CalleeIs(&idx.Call, "bytes", "Index") && idx.Call.Args[0] == line.X {
+					if prm, isP := line.X.(*ssa.Parameter); isP {
+						ev := &an.SeqEval{}
+						for i, q := range prm.Parent().Params {
+							if q == prm && i < len(site.Call.Args) {
+								if arg, isSl := site.Call.Args[i].(*ssa.Slice); isSl && arg.Low != nil && arg.High == nil && ev.Eval(idx.Call.Args[1]).Norm().String() == "'␁'" {
+									okLo = true
+								}
 							}
 						}
 					}
